@@ -1033,6 +1033,15 @@ Section ModArith.
   Proof. intros. apply Z.eqb_eq. now apply eqm_small. Qed.
 End ModArith.
 
+Local Instance zadd_proper q : Proper (eqm q ==> eqm q ==> eqm q) (zadd q).
+Proof. intros a a' Ea b b' Eb. rewrite !(zadd_eqm q). now rewrite Ea, Eb. Qed.
+Local Instance zsub_proper q : Proper (eqm q ==> eqm q ==> eqm q) (zsub q).
+Proof. intros a a' Ea b b' Eb. rewrite !(zsub_eqm q). now rewrite Ea, Eb. Qed.
+Local Instance zmul_proper q : Proper (eqm q ==> eqm q ==> eqm q) (zmul q).
+Proof. intros a a' Ea b b' Eb. rewrite !(zmul_eqm q). now rewrite Ea, Eb. Qed.
+Local Instance zneg_proper q : Proper (eqm q ==> eqm q) (zneg q).
+Proof. intros a a' Ea. rewrite !(zneg_eqm q). now rewrite Ea. Qed.
+
 (* replace every reducing operation by the plain one, modulo q *)
 Ltac zred q :=
   repeat (rewrite (zadd_eqm q) || rewrite (zsub_eqm q) || rewrite (zmul_eqm q) || rewrite (zneg_eqm q)).
@@ -1215,8 +1224,8 @@ Section AdditiveOTProofs.
   Theorem additive_small_batch_panics alpha choices V VC :
     length V = (8 * length choices)%nat -> (0 < length V <= nb)%nat ->
     additive_recv q nb sc2 choices VC (fst (additive_send q nb sc2 alpha V)) = RPanic.
-  Proof.
-    intros LV Lnb. unfold additive_send. cbn [fst]. rewrite map_map.
+  Proof using.
+    clear Hq Hqnb sc2_range. intros LV Lnb. unfold additive_send. cbn [fst]. rewrite map_map.
     set (CP := map (fun x => fst (additive_send_one q nb sc2 alpha x)) V).
     assert (LCP : length CP = length V) by (unfold CP; now rewrite map_length).
     assert (Lens0 : map (fun p : bytes * bytes => length (fst p)) CP = repeat nb (length V)).
@@ -1969,8 +1978,7 @@ Section AdditiveAltered.
     unfold recv_fun. rewrite nth_alter_pads by llia. cbn [fst snd Nat.add].
     unfold pad_val at 1 3. rewrite !(marshal_val q nb Hqnb) by apply zadd_range, Hq.
     destruct (bit_at j choices); cbn [b2z];
-      f_equal; (apply (eqm_small q); [apply zadd_range, Hq | apply zadd_range, Hq |]); zred q.
-    3: { Fail rewrite (zadd_eqm q). Set Printing All. Show. admit. }
+      f_equal; (apply (eqm_small q); [apply zadd_range, Hq | apply zadd_range, Hq |]); zred q; eqm_ring q.
   Qed.
 
   (* the sender's honest message is well-formed *)
@@ -2008,3 +2016,121 @@ Proof. eexists. vm_compute. reflexivity. Qed.
 Theorem additive_short_pad_panics :
   additive_recv secp256k1_q 32 demo_sc2 demo_choices demo_VC demo_CP_short = RPanic.
 Proof. vm_compute. reflexivity. Qed.
+
+(* ========================================================================================== *)
+(** * L. packaged statements, witnesses for the refuted statements, concrete instances *)
+
+Lemma clmul_bilinear :
+  (forall a b c, clmul (N.lxor a b) c = N.lxor (clmul a c) (clmul b c)) /\
+  (forall a b c, clmul a (N.lxor b c) = N.lxor (clmul a b) (clmul a c)).
+Proof. split; [exact clmul_lxor_l | exact clmul_lxor_r]. Qed.
+
+(* fieldElement.accumulate on [16]byte arguments *)
+Lemma accumulate_bytes_spec f a b :
+  okrow 16 a -> okrow 16 b -> accumulate_bytes f a b = N.lxor f (clmul (le_val a) (le_val b)).
+Proof.
+  intros Ha Hb. unfold accumulate_bytes.
+  apply accumulate_spec; apply (okrow_lt 16); try assumption; apply Nat.le_refl.
+Qed.
+
+Lemma demo_sc2_range : forall x, 0 <= fst (demo_sc2 x) < secp256k1_q /\ 0 <= snd (demo_sc2 x) < secp256k1_q.
+Proof. intro x. unfold demo_sc2. cbn [fst snd]. split; apply Z.mod_pos_bound; reflexivity. Qed.
+
+(* AdditiveOT with a batch of at most 32 transfers: the honest receiver panics *)
+Theorem additive_small_batch_refuted :
+  exists (choices : bytes) (V : list (bytes * bytes)),
+    length V = (8 * length choices)%nat /\ (0 < length V)%nat /\
+    forall alpha VC,
+      additive_recv secp256k1_q 32 demo_sc2 choices VC
+        (fst (additive_send secp256k1_q 32 demo_sc2 alpha V)) = RPanic.
+Proof.
+  exists [165%N; 90%N; 255%N; 0%N], (firstn 32 demo_V). split; [reflexivity|]. split; [cbn; lia|].
+  intros alpha VC. apply (additive_small_batch_panics secp256k1_q 32 demo_sc2); [reflexivity | cbn; lia].
+Qed.
+
+(* one altered field of the sender's message makes the honest receiver panic *)
+Theorem altered_short_pad_refuted :
+  exists CP CP' i,
+    (exists recv, additive_recv secp256k1_q 32 demo_sc2 demo_choices demo_VC CP = ROk recv) /\
+    length CP' = length CP /\
+    (forall j, j <> i -> nth j CP' ([], []) = nth j CP ([], [])) /\
+    snd (nth i CP' ([], [])) = snd (nth i CP ([], [])) /\
+    additive_recv secp256k1_q 32 demo_sc2 demo_choices demo_VC CP' = RPanic.
+Proof.
+  exists demo_CP, demo_CP_short, 7%nat. split; [exact demo_honest_ok|].
+  split; [vm_compute; reflexivity|]. split.
+  - intros j Hj.
+    assert (L : (j < 40 \/ 40 <= j)%nat) by lia. destruct L as [L|L].
+    + do 40 (destruct j as [|j]; [try (exfalso; apply Hj; reflexivity); vm_compute; reflexivity|]). lia.
+    + rewrite !nth_overflow; [reflexivity | vm_compute; lia | vm_compute; lia].
+  - split; [vm_compute; reflexivity | exact additive_short_pad_panics].
+Qed.
+
+(* ---- toy hash functions and concrete runs ---- *)
+Definition toy_prg (k : bytes) (n : nat) : bytes :=
+  map (fun i => ((le_val k * 7 + N.of_nat i * 13 + 5) mod 256)%N) (seq 0 n).
+Definition toy_sc2 (q : Z) (b : bytes) : Z * Z :=
+  ((Z.of_N (le_val b) * 3 + 1) mod q, (Z.of_N (le_val b) * 5 + 2) mod q).
+Definition toy_hV (ctr row : bytes) : bytes := xor_bytes (firstn (length row) (ctr ++ ctr ++ ctr ++ ctr)) row.
+Definition toy_gen (seed : N) (n : nat) : bytes :=
+  map (fun i => ((seed * 31 + N.of_nat i * 17 + N.of_nat i * N.of_nat i) mod 256)%N) (seq 0 n).
+
+Lemma toy_prg_ok k n : okrow n (toy_prg k n).
+Proof.
+  unfold toy_prg. split; [now rewrite map_length, seq_length|].
+  apply wf_bytes_In. intros x Hx. apply in_map_iff in Hx as (i & <- & _). now apply N.mod_lt.
+Qed.
+
+Lemma toy_sc2_range q : 0 < q -> forall x, 0 <= fst (toy_sc2 q x) < q /\ 0 <= snd (toy_sc2 q x) < q.
+Proof. intros Hq x. unfold toy_sc2. cbn [fst snd]. split; now apply Z.mod_pos_bound. Qed.
+
+Definition okrowb (k : nat) (r : bytes) : bool := (length r =? k)%nat && wf_bytes r.
+Lemma okrowb_ok k r : okrowb k r = true -> okrow k r.
+Proof. unfold okrowb. intro H. apply andb_true_iff in H as [L W]. apply Nat.eqb_eq in L. now split. Qed.
+Lemma Forall_okrowb k l : forallb (okrowb k) l = true -> Forall (okrow k) l.
+Proof. intro H. apply Forall_forall. intros x Hx. rewrite forallb_forall in H. apply okrowb_ok, H, Hx. Qed.
+
+(* q = 251, one-byte scalars, 8 base OTs; alpha = q-1, beta = 0 *)
+Definition tiny_inputs (alpha beta : Z) : mult_inputs := {|
+  mi_alpha := alpha; mi_alphahat := 77; mi_beta := beta;
+  mi_noise := [3; 250; 17; 100; 0; 1; 42; 199]; mi_gamma := [178%N];
+  mi_delta := [109%N];
+  mi_K0 := map (fun i => toy_gen (N.of_nat i) 2) (seq 0 8);
+  mi_K1 := map (fun i => toy_gen (N.of_nat i + 100) 2) (seq 0 8);
+  mi_pad := [60%N];
+  mi_chi := map (fun i => toy_gen (N.of_nat i + 50) 1) (seq 0 24);
+  mi_chi0 := 19; mi_chi1 := 200 |}.
+
+Lemma tiny_inputs_ok alpha beta : 0 <= beta < 251 -> mult_inputs_ok 251 1 1 (tiny_inputs alpha beta).
+Proof.
+  intro Hb. constructor; cbn [tiny_inputs mi_beta mi_noise mi_gamma mi_delta mi_K0 mi_K1 mi_pad mi_chi];
+    try reflexivity; try exact Hb; try lia.
+  - now apply okrowb_ok.
+  - now apply Forall_okrowb.
+Qed.
+
+(* secp256k1-size scalars (32 bytes, 416 noise entries, 672 transfers), 16 base OTs *)
+Definition mid_inputs (alpha beta : Z) : mult_inputs := {|
+  mi_alpha := alpha; mi_alphahat := 12345; mi_beta := beta;
+  mi_noise := map (fun i => (Z.of_nat i * 1234567891011 + 99) mod secp256k1_q) (seq 0 416);
+  mi_gamma := toy_gen 3 52;
+  mi_delta := toy_gen 5 2;
+  mi_K0 := map (fun i => toy_gen (N.of_nat i) 16) (seq 0 16);
+  mi_K1 := map (fun i => toy_gen (N.of_nat i + 1000) 16) (seq 0 16);
+  mi_pad := toy_gen 7 26;
+  mi_chi := map (fun i => toy_gen (N.of_nat i + 5000) 2) (seq 0 880);
+  mi_chi0 := 1111; mi_chi1 := 2222 |}.
+
+Lemma mid_inputs_ok alpha beta : 0 <= beta < secp256k1_q -> mult_inputs_ok secp256k1_q 32 2 (mid_inputs alpha beta).
+Proof.
+  intro Hb. constructor; cbn [mid_inputs mi_beta mi_noise mi_gamma mi_delta mi_K0 mi_K1 mi_pad mi_chi];
+    try exact Hb; try lia.
+  - vm_compute. reflexivity.
+  - vm_compute. reflexivity.
+  - apply okrowb_ok. vm_compute. reflexivity.
+  - vm_compute. reflexivity.
+  - vm_compute. reflexivity.
+  - vm_compute. reflexivity.
+  - apply Forall_okrowb. vm_compute. reflexivity.
+  - vm_compute. reflexivity.
+Qed.
